@@ -245,3 +245,62 @@ func (g *g4Grammar) altByLabel(rule, label string) *g4Alt {
 	}
 	return nil
 }
+
+// childKinds: the children of a parse-tree node built for this alternative, in
+// order: "terminal" (a literal, a group of alternative literals, a lexer rule)
+// or "rule" (a parser rule). ok is false when the alternative has optional or
+// repeated parts (the child positions then vary).
+func (a *g4Alt) childKinds() (kinds []string, ok bool) {
+	for i := 0; i < len(a.Elems); i++ {
+		e := a.Elems[i]
+		switch {
+		case e == "(":
+			depth, j := 1, i+1
+			onlyLits := true
+			for ; j < len(a.Elems) && depth > 0; j++ {
+				switch t := a.Elems[j]; {
+				case t == "(":
+					depth++
+					onlyLits = false
+				case t == ")":
+					depth--
+				case t == "|":
+				case strings.HasPrefix(t, "'"):
+				default:
+					onlyLits = false
+				}
+			}
+			if depth != 0 || !onlyLits {
+				return nil, false
+			}
+			kinds = append(kinds, "terminal")
+			i = j - 1
+		case e == "?" || e == "*" || e == "+" || e == "*?" || e == "|" || e == ")":
+			return nil, false
+		case strings.HasPrefix(e, "'"):
+			kinds = append(kinds, "terminal")
+		case e == "EOF" || unicode.IsUpper(rune(e[0])):
+			kinds = append(kinds, "terminal")
+		default:
+			kinds = append(kinds, "rule")
+		}
+	}
+	return kinds, true
+}
+
+// altForContext finds the alternative a generated context type (XContext) is built for.
+func (g *g4Grammar) altForContext(ctxTypeName string) *g4Alt {
+	label := strings.TrimSuffix(ctxTypeName, "Context")
+	for _, rn := range g.Order {
+		r := g.Rules[rn]
+		for i := range r.Alts {
+			if r.Alts[i].Label != "" && strings.EqualFold(r.Alts[i].Label, label) {
+				return &r.Alts[i]
+			}
+		}
+		if len(r.Alts) == 1 && r.Alts[0].Label == "" && strings.EqualFold(rn, label) {
+			return &r.Alts[0]
+		}
+	}
+	return nil
+}
